@@ -171,6 +171,9 @@ def _build0(d, maxdim):
         trio = [a, b, d.choice([a, b, float(a) if float(a) == a else a])]
         for v in trio[:2 + d.pick(2)]:
             grid[d.pick(h)][d.pick(w)] = v
+        if d.pick(2):
+            # ... and one of them WRITTEN INTO THE FORMULA as a scalar
+            args.insert(d.pick(len(args) + 1), ['n', d.choice([a, b])])
     case = {'kind': 'agg', 'fn': fn, 'grid': grid, 'args': args,
             'shuffle': d.pick(7)}
     if d.pick(3) == 0:
